@@ -1,9 +1,19 @@
 /-
-Lemmas.Rest — the three remaining error-bound clauses.
+Lemmas.Rest — the three remaining error-bound clauses (statements for the checker in `Properties/C04c`, `C05c`, `C13c`).
 
- §1 DWTimesDW3 (`TwoFloat * TwoFloat`) with the paper's constant `5u²` EXACTLY (`F64.dwtimesdw_err_5u2_exact`,
-    `TwoFloat.mul_tt_bound_5u2`).
- §2 DWDivFP3 (`TwoFloat / f64`) with the paper's constant `3u²` (`F64.divtf_3u2_int`, `F64.div_tf_val_3u2`).
+ §1  DWTimesDW3 (`TwoFloat * TwoFloat`) with the paper's constant `5u²` EXACTLY (`F64.dwtimesdw_err_5u2_exact`,
+     `TwoFloat.mul_tt_bound_5u2`, `mul_tt_bound_5u2_wide`).
+ §2  DWDivFP3 (`TwoFloat / f64`) with the paper's constant `3u²` (`F64.divtf_3u2_int`, `F64.div_tf_val_3u2`).
+ §2b accuracy of `TwoFloat / TwoFloat` on the whole of `DivRange` with the absolute error terms kept
+     (`F64.div_acc_int_abs`, `TwoFloat.div_tt_acc_abs`, `TwoFloat.div_q12_acc`).
+ §2c `TwoFloat / TwoFloat` returns a normalised pair for every numerator: `F64.renorm3_exact`, `F64.renorm3_crude`,
+     `F64.mul_tf_tiny`, `TwoFloat.div_tt_crude` (divisor at least `2^-41`), `TwoFloat.div_tt_alpha` (numerator at least
+     `2^9` absolute-error levels); assembled in §6 (`CbrtBound.div_tt_tiny`, `CbrtBound.div_tt_any`).
+ §3  the correctly rounded cube root `F64.cbrt` (`F64.icbrt_spec`, `F64.cbrt_spec`).
+ §4  one Newton step of `cbrt` over the reals (`CbrtReal.newton_norm`, `newton_scaled`): `E ↦ 1.001E² + 6.5u²`.
+ §5  the double-word operations as relative-error statements over the reals (`CbrtBound.mul_tt_real`, …).
+ §6  `TwoFloat::cbrt`: `CbrtBound.cbrt_init` (`E₀ ≤ 1.51·2^-53`), `cbrt_step`, `cbrt_val` (`7u²` on
+     `|x.hi| ∈ [2^-900, 2^900]`, unconditional), `cubes_of_real` (root-free form).
 -/
 import TFV.Lemmas.PowiBound
 import TFV.Lemmas.SqrtBound
